@@ -41,6 +41,7 @@ class DtOnlineModel(object):
         self.subs = F.subforms(f)
         self.subs_h = [(g, int(refsem.horizon(g))) for g in self.subs]
         self.drop = drop
+        self.exact = False      # True: values chosen so that every result is exactly representable; nothing is tolerated
         self.off = None
         if offline:
             try:
@@ -106,12 +107,12 @@ class DtOnlineModel(object):
             return 'update() number %d raised %s' % (n, val)
         if exp is None:
             return None
-        if not refsem.same(val, exp):
+        if not ((val == exp) if self.exact and val is not None else refsem.same(val, exp)):
             return 'update() number %d returned %r, reference rho(phi, w[0..%d], %d) is %r' % (
                 n, val, n - 1, n - 1 - self.delay, exp)
         if self.off is not None and self.delay == 0:
             k2, v2 = impl.outcome(impl.dt_evaluate, self.off, self.trace(hist))
-            if k2 == 'ok' and not refsem.same(v2[-1][1], val):
+            if k2 == 'ok' and not ((v2[-1][1] == val) if self.exact else refsem.same(v2[-1][1], val)):
                 return 'update() number %d returned %r but offline evaluate() gives %r at that sample' % (n, val, v2[-1][1])
         if self.delay == 0 and refsem.top_matters(self.f, self.trace(hist), n):
             self.nontrivial += 1
@@ -184,7 +185,24 @@ def shards(tier):
     out += [{'formulas': [F.to_json(f) for f in ds[i:i + 2]], 'deep': True} for i in range(0, len(ds), 2)]
     ls = long_set(tier)
     out += [{'formulas': [F.to_json(f) for f in ls[i:i + 2]], 'long': True} for i in range(0, len(ls), 2)]
+    bs = big_set()
+    out += [{'formulas': [F.to_json(f) for f in bs[i:i + 4]], 'big': True} for i in range(0, len(bs), 4)]
     return out
+
+
+BIG = 1e9
+BIG_VALUES = ((BIG, BIG + 1.0, BIG + 2.0), (0.0, BIG))
+
+
+def big_set():
+    """sample values of magnitude 1e9 that differ by one unit; results compared exactly"""
+    X, Y = F.X, F.Y
+    s = ('+', X, Y)
+    p = ('pred', '<=', s, ('const', 2 * BIG + 1.5))
+    q = ('pred', '>', Y, F.C0)
+    return [s, p, ('-', X, Y), ('and', X, Y), ('or', X, Y), ('pred', '>=', X, Y), ('pred', '==', X, s), ('prev', s), ('rise', p), ('fall', p),
+            ('once', (0, 1), s), ('historically', (1, 2), s), ('once', None, X), ('historically', None, s), ('since', None, p, q),
+            ('since', (0, 1), X, s), ('once', (1, 2), p), ('and', ('prev', p), q), ('abs', ('-', Y, X)), ('implies', q, ('historically', (0, 1), p))]
 
 
 def long_set(tier):
@@ -279,7 +297,13 @@ def run_shard(shard, tier, res):
             run_long(res, mod, f, tier)
             res.sample({'spec': 'out = ' + F.pr(f), 'long_traces': len(F.long_traces(len(F.fvars(f)) or 1, LONG_N, F.V3 if len(F.fvars(f)) < 2 else F.V2)), 'length': LONG_N}, 1)
             continue
-        st, m = explore_formula(res, mod, f, p)
+        model = extra = None
+        if shard.get('big'):
+            model = DtOnlineModel(f, BIG_VALUES)
+            model.exact = True
+            extra = {'exact': True}
+            p = dict(values=BIG_VALUES, maxdepth=5, max_transitions=400 if tier == 'quick' else 4000, validate='first')
+        st, m = explore_formula(res, mod, f, p, model=model, extra=extra)
         res.sample({'spec': m.text, 'events': [list(e) for e in m.events[:4]], 'states': st.states,
                     'transitions': st.transitions, 'fixpoint': st.fixpoint, 'max_depth': st.maxdepth}, 1)
 
@@ -288,6 +312,7 @@ def check_case(case):
     f = F.from_json(case['formula'])
     m = DtOnlineModel(f, (F.V3,), text=case['spec'], variables=case['vars'], pastify=case.get('pastify', False),
                       delay=case.get('delay', 0), subspecs=case.get('subspecs', ()), consts=[tuple(c) for c in case.get('consts', ())])
+    m.exact = bool(case.get('exact'))
     obj = m.fresh()
     hist = tuple(tuple(e) for e in case['history'])
     msgs = []
